@@ -224,7 +224,11 @@ def main_check(pid, tier):
     scale = float(os.environ.get("VERIF_SCALE", "1"))
     nexamples = max(1, int(nexamples * scale))
     ncpu = os.cpu_count() or 1
+    planned = nworkers
     nworkers = max(1, min(nworkers, ncpu))
+    if nworkers < planned:
+        # fewer cores than planned: keep the total number of cases (each worker does more)
+        nexamples = -(-nexamples * planned // nworkers)
     known = load_known()
     wall = WALL[tier]
 
@@ -341,8 +345,10 @@ def main_check(pid, tier):
 
     # vacuity guards
     vacuity = []
-    for lab in getattr(mod, "ESSENTIAL", []):
-        if totals.get(lab, 0) == 0 and not violations:
+    missing_labels = [lab for lab in getattr(mod, "ESSENTIAL", []) if totals.get(lab, 0) == 0]
+    if not violations and not skipped and scale >= 1:
+        # only a complete, unscaled run is expected to reach every essential class
+        for lab in missing_labels:
             vacuity.append(f"essential label {lab!r} never hit")
     if len(nontrivial) < 2 and not violations:
         vacuity.append(f"only {len(nontrivial)} distinct non-trivial cases")
@@ -365,6 +371,7 @@ def main_check(pid, tier):
             "exhaustive_parts": exhaustive,
             "exhaustive": False,
             "violation_buckets": sorted(violations),
+            "essential_classes_missing": missing_labels,
         },
     }
     if hasattr(mod, "evidence_extra"):
